@@ -11,7 +11,8 @@ to different fluents are independent.  `_apply_effect` (grounding + evaluation o
 B: on the C01 problem family (instantaneous actions only, no timed effects/goals, initial state satisfies the
 invariants and bounds) every plan up to the length bound is scheduled at pairwise distinct rational times
 (several schedules per plan, including ones that reorder the instances): TimeTriggeredPlanValidator must
-return VALID iff SequentialPlanValidator does on the instances in start-time order.
+return VALID iff SequentialPlanValidator does on the instances in start-time order.  A crafted family adds numeric fluents whose type has a
+single bound (lower or upper, 0 or not, int and real) with plans that leave the range only in the middle.
 """
 import itertools
 import random
@@ -32,13 +33,38 @@ def signature(pr, plan):
     return "unclassified"
 
 
+def crafted_half_bounded():
+    """numeric fluents whose type has a single bound (0 or another value; int and real; lower or upper): an excursion outside the range in the
+    middle of the plan, with the goal true again at the end, must be rejected by both validators"""
+    from unified_planning.shortcuts import Problem, Fluent, InstantaneousAction, IntType, RealType, Equals, Plus, Minus
+    out = []
+    for nm, ty, init in (("int_lb0", IntType(0, None), 0), ("int_ub0", IntType(None, 0), 0), ("real_lb0", RealType(Fraction(0), None), Fraction(0)),
+                         ("real_ub0", RealType(None, Fraction(0)), Fraction(0)), ("int_lb1", IntType(1, None), 1), ("int_ub2", IntType(None, 2), 2),
+                         ("real_lbm1", RealType(Fraction(-1), None), Fraction(-1))):
+        pr = Problem("half_bounded_" + nm)
+        n = Fluent("n", ty)
+        pr.add_fluent(n, default_initial_value=init)
+        up_, down = InstantaneousAction("inc"), InstantaneousAction("dec")
+        if nm.endswith("ub0"):          # the step itself must be a value of the fluent's type: -1 for (-inf, 0]
+            up_.add_decrease_effect(n, -1)
+            down.add_increase_effect(n, -1)
+        else:
+            up_.add_increase_effect(n, 1)
+            down.add_decrease_effect(n, 1)
+        pr.add_action(up_)
+        pr.add_action(down)
+        pr.add_goal(Equals(n, init))
+        out.append((9100000 + len(out), pr))
+    return out
+
+
 def bounded(tier, seed):
     from unified_planning.engines.plan_validator import SequentialPlanValidator, TimeTriggeredPlanValidator
     from unified_planning.engines.results import ValidationResultStatus
     from unified_planning.plans import SequentialPlan, TimeTriggeredPlan, ActionInstance
     nprob, maxlen, cap, nsched = (50, 2, 40, 2) if tier == "quick" else (400, 3, 150, 6)
     failures, evals, nontrivial, samples = [], 0, set(), []
-    for s, pr in SC.problems(seed + 29, nprob, features={"max_actions": 2}):
+    for s, pr in itertools.chain(crafted_half_bounded(), SC.problems(seed + 29, nprob, features={"max_actions": 2})):
         if not SequentialPlanValidator.supports(pr.kind) or not TimeTriggeredPlanValidator.supports(pr.kind):
             continue
         gas = seqsem.ground_actions(pr)
@@ -83,7 +109,7 @@ def bounded(tier, seed):
         if len(failures) >= 5:
             break
     return {"evaluations": evals, "distinct_nontrivial": len(nontrivial), "failures": failures,
-            "rule": f"{nprob} generated problems, plans <= {maxlen} (sampled above {cap}), {nsched} schedules with pairwise "
+            "rule": f"7 crafted problems over numeric types with a single bound (0 and non-0, int and real) + {nprob} generated problems, plans <= {maxlen} (sampled above {cap}), {nsched} schedules with pairwise "
                     f"distinct rational start times each; non-trivial = distinct timed plan that is VALID",
             "samples": samples, "bound": f"plans <= {maxlen}, {nsched} schedules"}
 
